@@ -39,10 +39,13 @@ def main():
         return 2
     ctx = common.Context(prop, args.tier, seed)
     try:
-        aud = common.audit(mod.THEOREMS, schema_groups=getattr(mod, "SCHEMA_TIE", ()))
+        aud = common.audit(mod.THEOREMS, schema_groups=getattr(mod, "SCHEMA_TIE", ()), sql_modules=getattr(mod, "SQL_TIE", ()))
         if args.replay:
             with open(args.replay) as fh:
                 doc = json.load(fh)
+            if doc.get("file_dialect_of_the_last_dataset_written"):
+                from harness import cli as _cli
+                _cli.FORCE_DIALECT[0] = doc["file_dialect_of_the_last_dataset_written"]
             ok = mod.replay(ctx, doc)
             if ok is None:
                 # no input-level replay for this kind of case: re-run the stream that produced it, with the
@@ -63,7 +66,17 @@ def main():
                     print("VIOLATION property=%s replay=%s" % (prop, v.replay))
             return 0 if ok else 1
         if aud["build_ok"]:
-            mod.run(ctx)
+            try:
+                mod.run(ctx)
+            except (KeyboardInterrupt, MemoryError):
+                raise
+            except Exception:
+                # the streams themselves failed on what the implementation returned: the correspondence can no
+                # longer be evaluated; not a verdict on the property by itself, but not a pass either
+                tb = traceback.format_exc()
+                sys.stderr.write(tb)
+                ctx.corr_break("the check can interpret what the implementation returns (its streams run to the end)",
+                               {"input": None, "exception": tb[-1500:]})
         else:
             # the Lean project no longer builds: that alone is not a violation of the property.  Search for a
             # failing input anyway, with the driver binary of the last successful build if there is one.
